@@ -1233,7 +1233,7 @@ class ExprCToExpr(ExprReducer):
             return None
         assert isinstance(src_type, (ObjCPtr, ObjCArray))
         struct_dst = src_type.objtype
-        assert isinstance(struct_dst, ObjCStruct)
+        assert isinstance(struct_dst, (ObjCStruct, ObjCUnion))
 
         found = False
         for name, objtype, offset, _ in struct_dst.fields:
